@@ -19,7 +19,10 @@ RULE = ("seven generated families against the real CategoricalClassification met
         "(several calls on ONE generator object, each on its own input - fresh literal, generate_data() of the same object, or "
         "an earlier input / output with permuted rows / columns - EVERY call judged against its own clause on the matrix it was "
         "given and the self-description compared after every call; corr_history repeats generate_correlated with the same "
-        "feature index and row count after the data changed); non-trivial = the case "
+        "feature index and row count after the data changed), scale (legal int32 values up to 2^31-1, literal or declared through "
+        "generate_data structure value lists; sums of 2..4 columns leave the int32 range, the model sums in Z), labels_reuse (the same "
+        "class-distribution list / ndarray object passed to 2-3 generate_labels calls on different data, each judged against the "
+        "distribution as first requested); non-trivial = the case "
         "exercises its clause (adds a column / has a binding cut point / flips at least one cell / drops at least one row); "
         "distinct = distinct canonical cases")
 THEOREMS = ["C20_corr",
@@ -496,12 +499,75 @@ def gen_history(rng, big):
     return {"kind": "history", "steps": steps, "seed": rng.randint(0, 10 ** 6)}
 
 
+def big_value(rng):
+    m = rng.random()
+    if m < 0.55:
+        return rng.randint(2 ** 30, 2 ** 31 - 1)
+    if m < 0.7:
+        return rng.choice([2 ** 31 - 1, 2 ** 30, 1200000011, 1900000009, 2 ** 31 - 2])
+    if m < 0.85:
+        return -rng.randint(2 ** 30, 2 ** 31)
+    return rng.randint(0, 9)
+
+
+def gen_scale(rng, big):
+    """large declared value domains (legal int32 values up to 2^31 - 1): sums of 2..4 columns leave the int32 range; the model's
+    sum is an unbounded Z.  Half of the cases are literal int32 / int64 matrices, half come from generate_data(structure=value
+    lists) of the same object (a history)."""
+    nr, nc = rng.randint(1, 10), rng.randint(2, 5)
+    ops = []
+    cur = nc
+    for t in range(rng.randint(1, 3)):
+        r = rng.random()
+        if r < 0.7:
+            k = rng.randint(2, min(4, cur))
+            idx = [rng.randrange(cur) for _ in range(k)] if rng.random() < 0.3 else rng.sample(range(cur), k)
+            ops.append({"op": "combo", "fn": "linear", "idx": {"v": idx, "as": rng.choice(["list", "array"])}})
+            cur += 1
+        elif r < 0.85:
+            ops.append({"op": "combo", "fn": rng.choice(["_xor", "_and", "_or"]), "idx": gen_idx(rng, cur, 2, 3, allow_scalar=False)})
+            cur += 1
+        else:
+            ops.append({"op": "dup", "idx": gen_idx(rng, cur, 1, 2)})
+            cur += len(idx_values(ops[-1]["idx"]))
+    if rng.random() < 0.5:
+        X = [[big_value(rng) for _ in range(nc)] for _ in range(nr)]
+        return {"kind": "pipe", "X": X, "dtype": rng.choice(["int32", "int32", "int64"]), "ops": ops}
+    structure = []
+    for j in range(nc):
+        dom = sorted({abs(big_value(rng)) for _ in range(rng.randint(2, 4))})
+        if len(dom) < 2:
+            dom = [dom[0], 2 ** 31 - 1 - j]
+        w = [rng.randint(1, 4) for _ in dom]
+        structure.append([j, [dom, [[v, sum(w)] for v in w]]])
+    steps = []
+    src = {"gen": {"n_features": nc, "n_samples": max(nr, 2), "structure": structure, "seed": rng.randint(0, 999)}}
+    for t, op in enumerate(ops):
+        steps.append({"kind": "pipe", "ops": [op], "X_from": src if t == 0 else {"step": t - 1, "what": "out"}})
+    return {"kind": "history", "steps": steps, "seed": rng.randint(0, 10 ** 6)}
+
+
+def gen_labels_reuse(rng, big):
+    """the SAME class-distribution object (list or ndarray) passed to 2-3 generate_labels calls on different data (train / test);
+    every call is judged against the distribution as originally requested"""
+    n = rng.choice([3, 3, 4, 5, 2])
+    spec = {"v": dyadic_dist(rng, max(n, 2), rng.choice([8, 16])), "as": rng.choice(["list", "list", "array"]), "ref": "shared"}
+    steps = []
+    for _ in range(rng.randint(2, 3)):
+        nr = rng.randint(4, 40 if not big else 150)
+        st = {"kind": "labels", "n": n, "p": spec, "relation": rng.choice(["linear", "linear", "first_col", "quarter_sum", "nonlinear"]),
+              "k": rng.choice([1, 2])}
+        steps.append(_literal(st, gen_matrix(rng, nr, rng.randint(1, 3), style=rng.choice(["wide", "wide", "small"])), rng))
+    return {"kind": "history", "steps": steps, "seed": rng.randint(0, 10 ** 6)}
+
+
 GENS = {"pipe": gen_pipe, "corr": gen_corr, "labels": gen_labels, "noise_cat": gen_noise_cat, "noise_missing": gen_noise_missing,
-        "down": gen_down, "session": gen_session, "history": gen_history, "corr_history": gen_corr_history}
+        "down": gen_down, "session": gen_session, "history": gen_history, "corr_history": gen_corr_history,
+        "scale": gen_scale, "labels_reuse": gen_labels_reuse}
 QUICK = {"pipe": 130, "corr": 70, "labels": 260, "noise_cat": 120, "noise_missing": 70, "down": 110, "session": 60, "history": 70,
-         "corr_history": 50}
+         "corr_history": 50, "scale": 60, "labels_reuse": 40}
 THOROUGH = {"pipe": 900, "corr": 500, "labels": 2000, "noise_cat": 900, "noise_missing": 500, "down": 800, "session": 400,
-            "history": 500, "corr_history": 400}
+            "history": 500, "corr_history": 400, "scale": 400, "labels_reuse": 300}
 
 
 def exhaustive_labels():
@@ -952,6 +1018,8 @@ def judge(case, res, val, ctx, stats):
                     if abs(float(v) - ref) > 1e-9 * max(1.0, abs(ref)):
                         bad("C20 labels: decision function", "nonlinear decision value = sum(k sin x + k cos x)", float(v), ref)
                         break
+        if res.get("p_unchanged") is False:
+            stats["labels_p_argument_mutated_by_the_call"] = stats.get("labels_p_argument_mutated_by_the_call", 0) + 1
         iy = int_cells([res["y"]])
         iy = iy[0] if iy else None
         scalar_gt2 = case["p"].get("as", "scalar") == "scalar" and case["n"] > 2 and frac(case["p"]["v"]) != Fraction(1, 2)
